@@ -138,6 +138,8 @@ pub struct GenProg {
     pub features: Vec<&'static str>,
     pub ast: Program,
     pub style: PrintStyle,
+    /// the configuration the program was generated with
+    pub cfg: FunGenCfg,
 }
 
 // ------------------------------------------------------------------------------------------------
